@@ -91,7 +91,7 @@ func checkC05(e *Env) {
 		"the byte string decoded from the in-bounds slice of the file buffer")
 	rd := e.fn("bundle.Read")
 	e.requireGates("GATE", rd, ok1, noCfg,
-		either("D.readall", "ok(ReadAll(r))", gate.CallOK("", "ioutil.ReadAll", "param:r"), gate.CallOK("", "io.ReadAll", "param:r")),
+		either("D.readall", "ok(ReadAll(r))", gate.CallOK("", "io.ReadAll", "param:r"), gate.CallOK("", "io.ReadAll", "param:r")),
 		gate.CallOK("D.meta", "bundle.loadMetadata", "call:i*.ReadAll(param:r)#0"))
 	forAllIterations(e, "FORALL", rd, "call:bundle.loadMetadata(*)#0.requests", noCfg,
 		gate.CallOK("D.each", "bundle.loadResponse", "call:bundle.loadMetadata(*)#0.requests[rangeidx]", "call:i*.ReadAll(param:r)#0"))
